@@ -10,6 +10,7 @@ native_impl={
 'vxTime':'if v := vxPlanInt(name); v != 0 { return time.Unix(0, int64(v)) }; return time.Time{}',
 'vxChoice':'return vxPlanChoice(name)',
 'vxConcrete':'return v',
+'vxConcreteBool':'return b',
 'vxConcreteStr':'return s',
 'vxShape':'return s',
 'vxAssume':'if !c { fmt.Println("VXASSUME-FAILED"); os.Exit(3) }',
